@@ -50,3 +50,7 @@ pub(crate) trait Index<Idx> {
 /// bit](crate::bits::BitVec::reset) vector, should pass this argument to
 /// [IndexedParallelIterator::with_min_len](`rayon::iter::IndexedParallelIterator::with_min_len`).
 pub const RAYON_MIN_LEN: usize = 100_000;
+
+// Hooks for verification harnesses (compiled only with --cfg sux_verif)
+#[cfg(sux_verif)]
+pub mod verif;
